@@ -142,7 +142,29 @@ func (c *Catalog) alterTypeAddValue(stmt *ast.AlterTypeAddValueStmt) error {
 			return nil
 		}
 	}
-	enum.Vals = append(enum.Vals, *stmt.NewValue)
+	if stmt.NewValNeighbor == nil {
+		enum.Vals = append(enum.Vals, *stmt.NewValue)
+		return nil
+	}
+	// ADD VALUE ... BEFORE | AFTER neighbor
+	at := -1
+	for i, val := range enum.Vals {
+		if val == *stmt.NewValNeighbor {
+			at = i
+			break
+		}
+	}
+	if at < 0 {
+		return fmt.Errorf("type %T does not have value %s", stmt.Type, *stmt.NewValNeighbor)
+	}
+	if stmt.NewValIsAfter {
+		at++
+	}
+	vals := make([]string, 0, len(enum.Vals)+1)
+	vals = append(vals, enum.Vals[:at]...)
+	vals = append(vals, *stmt.NewValue)
+	vals = append(vals, enum.Vals[at:]...)
+	enum.Vals = vals
 	return nil
 }
 
